@@ -251,6 +251,11 @@ class Coordinator(object):
     def start(self):
         if self._start_d:
             raise RestartError("Start called on already-started coordinator")
+        if self._stopping:
+            # stop() has torn the coordinator down for good (no protocol,
+            # _stopping stays set): a start() now would return a Deferred
+            # that never fires, with nothing scheduled.
+            raise RestartError("Start called on a stopped coordinator")
 
         log.debug("starting")
         self._start_d = Deferred()
